@@ -136,8 +136,8 @@ def worker(ctx, job):
         for prior in priors:
             for chunks in chunkss:
                 for dsize in dsizes:
-                    for fname, fsri, fexp in forms:
-                        if big and fname.startswith("multi"):
+                    for fname, fsri, fexp, wop in [(a_, b_, c_, w_) for (a_, b_, c_) in forms for w_ in ("w_write_all", "w_write_all_vectored")]:
+                        if big and (fname.startswith("multi") or wop != "w_write_all"):
                             continue
                         # prior state
                         fsutil.wipe(cache)
@@ -154,16 +154,16 @@ def worker(ctx, job):
                             opts["size"] = dsize
                         if fsri is not None:
                             opts["integrity"] = fsri
-                        rep, trace = wr.do_write(srv, cache, side=side, entry=entry, key=KEY if entry == "open" else None, algo=algo, n=n, tag=112, chunks=chunks, opts=opts)
+                        rep, trace = wr.do_write(srv, cache, side=side, entry=entry, key=KEY if entry == "open" else None, algo=algo, n=n, tag=112, chunks=chunks, opts=opts, write_op=wop)
                         res["evals"] += 1
                         res["transitions"] += len(trace)
                         count += 1
                         size_bad = dsize is not None and dsize != n
-                        case = {"flavour": flavour, "side": side, "entry": entry, "algo": algo, "n": n, "chunks": chunks, "declared_size": dsize, "declared_integrity": fname, "prior": prior}
+                        case = {"flavour": flavour, "side": side, "entry": entry, "algo": algo, "n": n, "chunks": chunks, "declared_size": dsize, "declared_integrity": fname, "prior": prior, "supplied_through": wop}
                         replay = {"engine": "seqx", "case": case, "reply": rep}
-                        res["distinct"].add(V.h(flavour, side, entry, algo, n, tuple(chunks), dsize, fname, prior))
+                        res["distinct"].add(V.h(flavour, side, entry, algo, n, tuple(chunks), dsize, fname, prior, wop))
                         szc = "size=none" if dsize is None else "size=correct" if not size_bad else ("size<n" if dsize < n else "size>n")
-                        sig = "commit:%s/%s:%s:%s:integrity=%s" % (entry, side, "n<=1MiB" if n <= ref.MIB else "n>1MiB", szc, fname)
+                        sig = "commit:%s/%s:%s:%s:integrity=%s%s" % (entry, side, "n<=1MiB" if n <= ref.MIB else "n>1MiB", szc, fname, "" if wop == "w_write_all" else ":vectored")
                         cls = classify(rep)
                         V.outcome(res, "%s|%s|%s" % (szc, fname, cls))
                         if not ("ok" in rep or "err" in rep) or rep.get("panics"):
